@@ -533,7 +533,9 @@ func (q *QWorld) ACK(n int) bool {
 	if q.guard("Queue.ACK", func() { err = q.Q.ACK(uint(n)) }) {
 		return false
 	}
-	if err != nil && q.tolerated(err) {
+	// "reading and ACK still succeed on the full file": a no-space error from ACK
+	// is not an expected outcome, only an injected I/O error is
+	if err != nil && q.Faulty && q.tolerated(err) {
 		q.mark("ack-fail", q.Acked)
 		q.tracef("ack(%d) -> io error (%s)", n, kinds(err))
 		if q.Mon.Counters && q.cbAcked != q.Acked {
